@@ -240,6 +240,13 @@ async def _body(run: Run, sdef: dict, ctx: Context, ev: Any) -> Any:
         if oc is not None:
             # a step that reports from its cancellation path (finally / except CancelledError)
             ctx.write_event_to_stream(ET.mk(oc[1], run.fresh(), None))
+        osl = next((a for a in sdef["script"] if a[0] == "on_cancel_sleep"), None)
+        if osl is not None:
+            # a step with asynchronous cleanup: it needs a while to unwind from its cancellation
+            try:
+                await asyncio.sleep(osl[1])
+            except asyncio.CancelledError:
+                pass
         raise
     except BaseException as e:
         status = "raise:" + type(e).__name__
@@ -313,8 +320,8 @@ async def _interp(run: Run, sdef: dict, ctx: Context, ev: Any, rn: int) -> Any:
             await asyncio.sleep(act[1])
         elif op == "yield":
             await asyncio.sleep(0)
-        elif op == "on_cancel_stream":
-            pass  # marker: see _body's CancelledError branch
+        elif op in ("on_cancel_stream", "on_cancel_sleep"):
+            pass  # markers: see _body's CancelledError branch
         elif op == "send":
             if run.spec.get("det_uids"):
                 nsent = sum(1 for a in sdef["script"][: sdef["script"].index(act)] if a[0] == "send")
